@@ -53,6 +53,16 @@ pub fn run_case(case: &J, workdir: &str, out: &mut dyn Write, n: usize) {
             ev["c"] = json!(c);
             ev["line"] = json!(line);
             ev["r"] = r;
+        } else if let Some(d) = st.get("direct_set") {
+            ev["ev"] = json!("cmd");
+            ev["c"] = json!(st["c"].as_str().unwrap_or("c1"));
+            ev["line"] = json!("<direct set>");
+            ev["r"] = node.direct_set(
+                d["db"].as_str().unwrap_or("d"),
+                d["k"].as_str().unwrap_or(""),
+                d["v"].as_str().unwrap_or(""),
+                d["ver"].as_i64().unwrap_or(-1) as i32,
+            );
         } else if st.get("tick").is_some() {
             ev["ev"] = json!("tick");
             ev["r"] = node.tick();
